@@ -78,6 +78,18 @@ func backendProp(b backendSpec, meaning string) propFunc {
 			c.runResolutionSiblings(r, "resolution.siblings", inPkgs("glsl"), nil)
 			r.floor("resolution.siblings", 4)
 		}
+		if b.Name == "hlsl" {
+			r.Clauses = append(r.Clauses, "workgroup size products (E50): a product of three or more factors drawn from the elements of one three-element array uses each index exactly once", "declarator extents (E50): a self-recursive function that prints one [extent] per array level prints its own extent before recursing into the element type")
+			c.runDimsProduct(r, "dims.product", inPkgs("hlsl"))
+			r.floor("dims.product", 1)
+			c.runExtentOrder(r, "array.extentorder", inPkgs("hlsl"))
+			r.floor("array.extentorder", 1)
+		}
+		if b.Name == "glsl" {
+			r.Clauses = append(r.Clauses, "declarator extents (E50): a self-recursive function that prints one [extent] per array level prints its own extent before recursing into the element type")
+			c.runExtentOrder(r, "array.extentorder", inPkgs("glsl"))
+			r.floor("array.extentorder", 1)
+		}
 		r.Clauses = append(r.Clauses, argsRoleClause)
 		c.runArgsNameRole(r, "args.namerole", inPkgs(b.Name))
 		r.floor("args.namerole", 5)
